@@ -57,6 +57,9 @@ RtpPool(c) == RtpCore(c)
   \cup { El("rtcp", "v", k, D, n) : k \in RtcpKinds, n \in {0, 1, 2, 3, 4, 7, 8, -1} }
   \cup { El("rtcp_on_rtp", "v", k, D, n) : k \in {"sr", "rr"}, n \in {1, 4, 11, 12, -1} }
   \cup { El("rtp_on_rtcp", t, D, "single", -1) : t \in {"v"} }
+  \* report intervals in which the highest sequence number does not advance: RTP s, SR, then the same packet again (dup),
+  \* an older one (old), nothing (none), the packets around the wrap of the sequence number (wrap), each followed by an SR
+  \cup { El("rtcp_seq", t, k, D, -1) : t \in {"v", "a"}, k \in {"dup", "old", "none", "wrap"} }
 
 \* GB28181 program stream in RTP
 PsVariants ==
@@ -180,6 +183,7 @@ UdpPool == UdpCore
   \cup { El("rtp", t, p, "multi", -1) : t \in {"v", "a"}, p \in UdpPts }
   \cup { El("rtcp", t, "sr", c, n) : t \in {"v", "a"}, c \in UdpSsrcs, n \in {-1, 27, 4, 1} }
   \cup { El("rtcp", t, k, c, -1) : t \in {"v", "a"}, k \in {"rr", "srlong", "bye"}, c \in {"v", "a"} }
+  \cup { El("rtcp_seq", t, k, D, -1) : t \in {"v", "a"}, k \in {"dup", "old", "none", "wrap"} }
 
 Cfgs == CASE Surf = "rtp" -> { [vc |-> v, ac |-> "aac", sub |-> s, rate |-> "ok"] : v \in {"avc", "hevc"}, s \in {"n", "y"} }
                            \cup { [vc |-> v, ac |-> "aac", sub |-> "n", rate |-> r] : v \in {"avc", "hevc"}, r \in {"0", "1", "999"} }   \* SDP clock rate class of both tracks
